@@ -8,7 +8,7 @@
 #       real pathname expansion for the Filenames modes): three-way verdict;
 #   (I) for the extended-operator families the same vectors run as `case`/`[[ ]]` programs in the
 #       real interpreter (internal.ExtendedPatternMatcher) against the same expected sets.
-import json
+import json, os
 import vlib
 from props import globlib as G
 
@@ -16,7 +16,12 @@ LEVEL = "model_checking"
 
 
 def run(ck):
-    G.run_families(ck, "ShGlob.%s.cfg" % ck.tier, prop="C17")
+    if os.environ.get("VERIF_GLOB_CFG"):      # development aid: one named cfg, no simulation
+        G.run_families(ck, [os.environ["VERIF_GLOB_CFG"]], prop="C17")
+    elif ck.tier == "quick":
+        G.run_families(ck, ["ShGlob.quick.cfg"], prop="C17", sim=("ShGlob.sim.cfg", 40, 7))
+    else:
+        G.run_families(ck, ["ShGlob.thorough.cfg", "ShGlob.thorough2.cfg"], prop="C17", sim=("ShGlob.sim.cfg", 300, 8))
 
 
 def replay(ck, rec):
